@@ -452,11 +452,10 @@ def _main(argv=None):
 
 
 def _shape(tok):
-    if re.fullmatch(r"[A-Z_]+[(),;]*", tok):
-        return tok
-    t = re.sub(r"[A-Za-z_\u0080-\U0010ffff]+", "a", tok)
-    t = re.sub(r"\d+", "N", t)
-    return t[:24]
+    m = re.fullmatch(r"[(]*([A-Z_]{2,})[(),;]*", tok)
+    if m:
+        return m.group(1)
+    return "x"
 
 
 def _sig(res):
@@ -464,7 +463,7 @@ def _sig(res):
     if res["kind"] in ("syntax", "exec-error", "render-error", "exec-differs-from-invoke-error"):
         e = res["error"] or ""
         e = re.sub(r"\d+", "N", e)
-        e = re.sub(r"'[^']*'|\"[^\"]*\"", "S", e)
+        e = re.sub(r"\(.*", "", e) if res["kind"] != "exec-differs-from-invoke-error" else " / ".join(re.sub(r"\(.*", "", x) for x in e.split(" / exec: "))
         return e[:70]
     import difflib
 
@@ -474,12 +473,12 @@ def _sig(res):
     sm = difflib.SequenceMatcher(a=a, b=b, autojunk=False)
     for tag, i1, i2, j1, j2 in sm.get_opcodes():
         if tag != "equal":
-            ctx = a[i1 - 1] if i1 else "^"
+            ctx = [t for t in a[:i1] if _shape(t) != "x"][-2:]
             return "%s after %s: exec[%s] invoke[%s]" % (
                 tag,
-                _shape(ctx),
-                " ".join(_shape(t) for t in a[i1:i2][:3]),
-                " ".join(_shape(t) for t in b[j1:j2][:3]),
+                " ".join(ctx) or "^",
+                " ".join(_shape(t) for t in a[i1:i2][:2]),
+                " ".join(_shape(t) for t in b[j1:j2][:2]),
             )
     return "same?"
 
